@@ -11,7 +11,7 @@
    A result dictionary maps wire keys (sx: candidate = A c, frozenset = L of its sorted members, tuple = L of its components; the
    wire encoding of the C13 correspondence streams) to exact rationals, in insertion order. *)
 From Coq Require Import ZArith QArith List Bool.
-From VL Require Import Prelude.Sx Prelude.PyDict Prelude.GDict Prelude.PyNum Prelude.PyList Model.GetNBest Model.Convert.
+From VL Require Import Prelude.Sx Prelude.PyDict Prelude.GDict Prelude.PyNum Prelude.PyList Prelude.PySeq Model.GetNBest Model.Convert.
 Import ListNotations.
 
 Definition pydict := list (sx * Q).
@@ -46,3 +46,38 @@ Example py_dict_get_hit : py_dict_get [(A 1, 1 # 1); (L [A 1; A 2], 2 # 1)]%Q (L
 Example py_dict_get_miss : py_dict_get [(A 1, 1 # 1)]%Q (A 3) 0 = 0%Q.   Proof. reflexivity. Qed.
 Example py_frozenset_ex : py_frozenset [3; 1; 3; 2]%positive = [1; 2; 3]%positive.   Proof. reflexivity. Qed.
 Example py_set_difference_ex : py_set_difference [1; 2; 3; 4]%positive [4; 2; 2]%positive = [1; 3]%positive.   Proof. reflexivity. Qed.
+
+(* ---- dynamically typed code (RankedToCondorcetVotes.convert): an item of a ranked ballot is used as a candidate or as a set
+   depending on a flag computed elsewhere; a local holds an item or a 1-tuple of it.
+   [pyv]: an item, or a tuple of items.  Iterating a frozenset item gives its members (as plain items), iterating a tuple its
+   components; a plain candidate is an opaque atom: iterating it is a TypeError.
+   Operations that may raise inside a loop do not leave the fold: the first exception is kept in a flag threaded through the
+   state ([py_try]: the first one wins), the operation yields a filler ([py_val]) and the run continues on fillers; the function
+   answers [py_result]: the value when the flag is still clear, else the exception - what CPython answers, since every translated
+   operation is total and nothing but the final result is observed. *)
+Inductive cvexn := CvTypeError | CvIndexError | CvUnboundLocalError.
+Definition py_try {X : Type} (e : option cvexn) (op : option X) (x : cvexn) : option cvexn :=
+  match e with Some _ => e | None => match op with Some _ => None | None => Some x end end.
+Definition py_val {X : Type} (op : option X) (filler : X) : X := match op with Some v => v | None => filler end.
+Definition py_result {X : Type} (e : option cvexn) (x : X) : X + cvexn := match e with None => inl x | Some e' => inr e' end.
+Inductive pyv := VI (i : item) | VT (l : list item).
+Definition py_is_set (i : item) : bool := match i with IS _ => true | IP _ => false end.
+Definition py_item_iter (i : item) : option (list item) := match i with IS l => Some (map IP l) | IP _ => None end.
+Definition py_iter_v (v : pyv) : option (list item) := match v with VT l => Some l | VI i => py_item_iter i end.
+(* l[a:] *)
+Definition py_slice_from {X : Type} (l : list X) (a : Z) : list X :=
+  if (0 <=? a)%Z then skipn (Z.to_nat a) l else skipn (Z.to_nat (py_len l + a)) l.
+(* s.difference(iterable) for a frozenset of candidates and a list of items: the candidates met as plain items are removed *)
+Definition py_set_difference_items (a : list C) (r : list item) : list C :=
+  filter (fun c => negb (existsb (fun i => match i with IP c' => ceqb c c' | IS _ => false end) r)) a.
+
+Example py_slice_from_1 : py_slice_from [5; 6; 7]%Z 1 = [6; 7]%Z.       Proof. reflexivity. Qed.
+Example py_slice_from_9 : py_slice_from [5; 6; 7]%Z 9 = [].             Proof. reflexivity. Qed.
+Example py_slice_from_m1 : py_slice_from [5; 6; 7]%Z (-1) = [7]%Z.      Proof. reflexivity. Qed.
+Example py_slice_from_m9 : py_slice_from [5; 6; 7]%Z (-9) = [5; 6; 7]%Z. Proof. reflexivity. Qed.
+Example py_iter_set : py_iter_v (VI (IS [1; 2]%positive)) = Some [IP 1%positive; IP 2%positive].   Proof. reflexivity. Qed.
+Example py_iter_tuple : py_iter_v (VT [IS [1; 2]%positive]) = Some [IS [1; 2]%positive].             Proof. reflexivity. Qed.
+Example py_iter_atom : py_iter_v (VI (IP 1%positive)) = None.                                         Proof. reflexivity. Qed.
+Example py_try_first : py_try (Some CvIndexError) (@None Z) CvTypeError = Some CvIndexError.          Proof. reflexivity. Qed.
+Example py_diff_items : py_set_difference_items [1; 2; 3]%positive [IP 2%positive; IS [3]%positive] = [1; 3]%positive.
+Proof. reflexivity. Qed.
